@@ -1199,5 +1199,8 @@ pub fn gen_c20(rng: &mut Rng, tier: Tier) -> NetProgram {
         prog.max_events = 0;
         prog.max_time_ns = 3 * SEC + rng.below(20) * SEC;
     }
+    // the process may log: a subscriber that accepts every level is installed for the run (and the drop), so that the
+    // arguments of every log statement of des are evaluated
+    prog.logging = rng.chance(1, 4);
     prog
 }
